@@ -41,3 +41,17 @@ package sessions
 //@ ensures[session-only-from-successful-decrypt] ret0 != nil ==> ret1(Decrypt) == nil && recv(Decrypt) == c && arg(Decrypt, 0) == data
 //@     && ret(msgpack.Unmarshal) == nil && ret1 == nil
 //@ ensures[error-means-no-session] ret1 != nil ==> ret0 == nil
+
+// ------------------------------------------------------------------ C12 / C13: the session's lock operations are the store lock's
+//@ func (*SessionState).ObtainLock
+//@ prop C12 C13
+//@ ensures[result-of-the-sessions-lock] ret0 == ret(Obtain) && arg(Obtain, 1) == expiration && (old(s.Lock) != nil ==> recv(Obtain) == old(s.Lock))
+//@ func (*SessionState).RefreshLock
+//@ prop C12 C13
+//@ ensures[result-of-the-sessions-lock] ret0 == ret(Refresh) && arg(Refresh, 1) == expiration && (old(s.Lock) != nil ==> recv(Refresh) == old(s.Lock))
+//@ func (*SessionState).ReleaseLock
+//@ prop C12 C13
+//@ ensures[result-of-the-sessions-lock] ret0 == ret(Release) && (old(s.Lock) != nil ==> recv(Release) == old(s.Lock))
+//@ func (*SessionState).PeekLock
+//@ prop C12 C13
+//@ ensures[result-of-the-sessions-lock] ret0 == ret0(Peek) && ret1 == ret1(Peek) && (old(s.Lock) != nil ==> recv(Peek) == old(s.Lock))
